@@ -13,7 +13,7 @@ ID = "C15"
 LEVEL = "exploration"
 TECHNIQUE = "exhaustive request enumeration from app.url_map with status + state-fingerprint oracle under a controlled clock"
 RULE = ("every rule x method of the live url_map (HEAD included, automatic OPTIONS judged on 'serves nothing, changes nothing') x instance id in "
-        "{live, dead, malformed, externalised, ids that begin like the public resources (metrics, healthy-1, full-metrics)} x body in {well-formed superset body, none} x 22 credential shapes (incl. the token with non-ASCII characters added) x server state in "
+        "{live, dead, malformed, externalised, ids that begin like the public resources (metrics, healthy-1, full-metrics)} x body in {well-formed superset body, none} x 28 credential shapes (incl. the token with non-ASCII characters added, the token glued to a scheme-like prefix, the token of another server in the same process) x server state in "
         "{no instances, live session, locked session, externalised instance}; control group: the same requests with the exact token must not "
         "be refused by the decorator, and the identical request repeated straight after it with 4 credential shapes is refused again. distinct_nontrivial = distinct (rule, method, credential class) triples refused on a server state in "
         "which the same request with the token is served (2xx).")
@@ -23,6 +23,7 @@ ASSUMPTIONS = ["headers that contain the exact token as a whitespace-delimited w
 REQUIRED = {"refused_after_authorised": 500, "requests_refused": 3000, "fingerprint_comparisons": 3000, "control_served": 10, "rules_enumerated": 15}
 BUDGET_S = {"quick": 110, "thorough": 900}
 TOKEN = "Tok3n-abc.DEF"
+OTHER_TOKEN = "0ther-Server.t0ken"
 PUBLIC = {"/", "/healthy", "/metrics", "/full-metrics"}
 STATES = ["empty", "live", "locked", "external"]
 
@@ -35,6 +36,9 @@ def credentials():
         ("token-first-wrong-second", t[:-1] + " " + t[:-1]), ("bare-wrong", t[:-1]), ("long", "Bearer " + "A" * 5000), ("latin1", "Bearer tök3n"),
         ("quoted", 'Bearer "' + t + '"'), ("comma", "Bearer " + t + ",x"), ("tab", "Bearer\t" + t + "x"),
         ("basic-b64", "Basic dXNlcjpwYXNz"), ("negotiate", "Negotiate " + t[::-1]),
+        # the exact token glued to a scheme-like prefix without a blank; the token of ANOTHER server living in the same process
+        ("colon", "Bearer:" + t), ("equals", "Bearer=" + t), ("underscore", "Bearer_" + t), ("seven-chars", "XXXXXXX" + t), ("glued", "Bearer" + t),
+        ("other-servers-token", "Bearer " + OTHER_TOKEN),
         # the token with characters outside ASCII added (a comparison that drops or replaces what it cannot encode would accept them)
         ("nonascii-suffix", "Bearer " + t + "\u00e9"), ("nonascii-inside", "Bearer " + t[:3] + "\u00fc" + t[3:]), ("nonascii-prefix", "Bearer \u00df" + t), ("nonascii-only", "Bearer \u00fc\u00e9"),
         # contain the exact token as a word: recorded only
@@ -61,7 +65,11 @@ def superset_body():
 def build(state, tmp):
     from vlib import srv
     sd = os.path.join(tmp, "state_" + state)
+    # another server with another token lives in the same process (one before, one after the server under test)
+    others = [srv.make_server(srv.bptk_factory(), token=OTHER_TOKEN)]
     app = srv.make_server(srv.bptk_factory(), state_dir=sd, token=TOKEN)
+    others.append(srv.make_server(srv.bptk_factory(), token=OTHER_TOKEN))
+    app._verif_other_servers = others
     c = app.test_client()
     H = {"Authorization": "Bearer " + TOKEN}
     ids = {"dead": "0123456789abcdef0123456789abcdef", "malformed": "..%2F..%2Fetc", "weird": "a b",
@@ -214,6 +222,8 @@ def run_case(case):
                         w = w or dict(kind="public-endpoint-refused", path=p)
         finally:
             srv.destroy_server(app)
+            for o_ in getattr(app, "_verif_other_servers", []):
+                srv.destroy_server(o_)
     import shutil
     shutil.rmtree(tmp, True)
     if w is not None:
